@@ -11,6 +11,9 @@
 //!      with <r> = `-` (error) or `<timestamp secs>.<subsec nanos>`.
 //! `o.c35.lower`, `c35.white`                  : exhaustive sweeps of `char::to_lowercase` / `char::is_whitespace`
 //! `o.c35 <value> <hex name> <tz> <render tz>`: round trip of the canonical text on the implementation.
+//! `o.c35.nopanic <hex name> <hex bytes> <tz>` : panic freedom of parse+convert on arbitrary text.
+//! `o.c35.reconv <hex name> <hex bytes> <tz>`  : round trip (RFC 3339, automatic conversion) of the timestamp
+//!      the conversion RETURNED (reaches leap-second representations, which `o.c35` cannot start from).
 use crate::rng::Rng;
 use crate::sink::{guarded, Reply, Sink};
 use crate::wire::*;
@@ -265,6 +268,31 @@ fn exec_inner(op: &str, a: &[String]) -> Option<Reply> {
         }
         // panic freedom of parse+convert on arbitrary text: observations = the primitive results and
         // the implementation's outcome; the Lean side evaluates `convert … ≠ panic` and classifies.
+        // round trip of a RETURNED timestamp: convert the text; render the value as RFC 3339 (the
+        // canonical text of a timestamp); convert that with the automatic `timestamp` conversion.
+        // This reaches values `o.c35` cannot start from: chrono's leap-second representation
+        // (sub-second field >= 10^9), in particular on a UTC second that is not :59 (what
+        // `datetime_to_utc` returns since 83f4a4b for a leap second in a zone whose offset has seconds).
+        // Observations: the value, its `<secs>.<subsec nanos>`, the RFC 3339 text, the second result, and whether chrono's `==`
+        // holds between the two `DateTime`s (informative: the wire format, like the model, observes a
+        // timestamp as a nanosecond count and does not distinguish `(s, 10^9+f)` from `(s+1, f)`).
+        ("o.c35.reconv", [name, bytes, tzs]) => {
+            let name = String::from_utf8(unhex(name)?).ok()?;
+            let bytes = unhex(bytes)?;
+            let tz = tz_of(tzs)?;
+            let conv = Conversion::parse(&name, tz).ok()?;
+            let v = guarded(|| conv.convert::<Value>(bytes::Bytes::copy_from_slice(&bytes))).ok()?.ok()?;
+            let Value::Timestamp(t) = &v else { return None };
+            let text = t.to_rfc3339_opts(SecondsFormat::AutoSi, true);
+            let auto = Conversion::Timestamp(tz);
+            let b2 = bytes::Bytes::copy_from_slice(text.as_bytes());
+            let same = match guarded(|| auto.convert::<Value>(b2)) {
+                Ok(Ok(Value::Timestamp(t2))) => *t == t2,
+                _ => false,
+            };
+            let res = convert(&auto, text.as_bytes());
+            Some(Reply::oracle(vec![show_value(&v), show_inst(t), hex(text.as_bytes()), res, if same { "1".into() } else { "0".into() }]))
+        }
         ("o.c35.nopanic", [name, bytes, tzs]) => {
             let r = exec_inner("c35.convert", &[name.clone(), bytes.clone(), tzs.clone()])?;
             let obs = r.obs.first().cloned().unwrap_or_else(|| "-".into());
@@ -369,6 +397,17 @@ fn emit_convert(sink: &mut Sink, name: &str, text: &[u8], tz: &str, bucket: &str
         let class = if r.reply.starts_with("ok") { "ok" } else { r.reply.as_str() };
         sink.count(&format!("c35:{bucket}:{class}"));
         sink.emit("o.c35.nopanic", &inputs);
+        if r.reply.starts_with("ok ts:") {
+            match sink.emit("o.c35.reconv", &inputs) {
+                Some(rr) => {
+                    // <secs>.<subsec nanos> of the returned value: a leap-second representation has >= 10 digits
+                    let leap = rr.obs.get(1).and_then(|i| i.split('.').nth(1)).is_some_and(|n| n.len() >= 10);
+                    let eq = rr.obs.last().is_some_and(|e| e == "1");
+                    sink.count(&format!("c35:reconv:{}:{}", if leap { "leap-repr" } else { "plain" }, if eq { "identical" } else { "same-ns-count,chrono-eq-false" }));
+                }
+                None => sink.count("c35:reconv:dropped(chrono range panic while rendering)"),
+            }
+        }
     } else {
         sink.count("c35:dropped-convert-case");
     }
@@ -572,6 +611,29 @@ pub fn generate(sink: &mut Sink, rng: &mut Rng, n: u64) {
         for z in ZONES {
             emit_convert(sink, nm, text.as_bytes(), z, "ts:fixed");
         }
+    }
+    // leap seconds (`:60`) at random minutes of random days, the local-mean-time era included: in a zone
+    // whose UTC offset has seconds the value keeps the leap-second representation on a UTC second that
+    // is not :59 (the path of `datetime_to_utc` repaired by 83f4a4b; it panicked before)
+    for _ in 0..n / 10 {
+        let t = gen_instant(rng, true);
+        let Some(mut text) = render(&t, "%F %H:%M:60", "UTC") else { continue };
+        let (name, tail) = *rng.pick(&[
+            ("timestamp|%F %T", ""),
+            ("timestamp|%F %T", ""),
+            ("timestamp", ""),
+            ("timestamp|%F %T%.f", ".25"),
+            ("timestamp|%F %T%.f", ".999999999"),
+            ("timestamp|%F %T %z", " +0000"),
+            ("timestamp|%F %T %z", " +0530"),
+            ("timestamp|%F %T %z", " -0330"),
+            ("timestamp", "Z"),
+        ]);
+        text.push_str(tail);
+        if tail == "Z" {
+            text = text.replacen(' ', "T", 1);
+        }
+        emit_convert(sink, name, text.as_bytes(), *rng.pick(ZONES), "ts:leap");
     }
     for _ in 0..n / 2 {
         let zoned = rng.chance(1, 2);
